@@ -216,3 +216,13 @@ func Join() {
 	}
 	wg.Wait()
 }
+
+// ByteIn reports whether b occurs in set (one solver term under the executor: no path split).
+func ByteIn(b byte, set string) bool {
+	for i := 0; i < len(set); i++ {
+		if set[i] == b {
+			return true
+		}
+	}
+	return false
+}
